@@ -86,6 +86,11 @@ def cases(tier: str, seed: int) -> list[dict]:
                     # the same with distributed loads along the members (consistent nodal loads of the member shape functions)
                     out.append({"an": "beam", "dim": bdim, "et": et, "theory": theory, "improper": not bool(k % 2), "frame": (k % 3 != 1), "dyn": (k % 4 == 1), "line": True})
                     k += 1
+        # a 3-D member turned about its own axis ON THE SAME OBJECTS (the section axes are re-assigned on the beam of an assembled
+        # simulation, loads turned likewise): the response turns with it
+        for theory in ("EB", "Timo"):
+            for et in ("SEG2", "SEG3"):
+                out.append({"an": "beam-turned", "dim": 3, "et": et, "theory": theory, "improper": False})
     for i, c in enumerate(out):
         c["id"] = f"C10-{i:05d}-{c['an']}-{c['dim']}d-{c['et']}-{c.get('law', c.get('theory', ''))}-{'improper' if c['improper'] else 'proper'}"
         c["index"] = i
@@ -105,7 +110,7 @@ def random_orthogonal(rng, dim, improper):
 
 def run_case(case: dict, ctx: Ctx) -> None:
     rng = np.random.default_rng([case["seed"], NUM, case["index"]])
-    {"elastic": run_continuum, "thermal": run_thermal, "hyperelastic": run_continuum, "beam": run_beam}[case["an"]](case, ctx, rng)
+    {"elastic": run_continuum, "thermal": run_thermal, "hyperelastic": run_continuum, "beam": run_beam, "beam-turned": run_beam_turned}[case["an"]](case, ctx, rng)
 
 
 def _moved_mesh(rng, mesh, dim, improper, constr):
@@ -270,6 +275,55 @@ def run_thermal(case, ctx, rng):
 
 
 # ------------------------------------------------------------------------------------------
+def run_beam_turned(case, ctx, rng):
+    et, theory = case["et"], case["theory"]
+    key = f"C10/beam/3D/{theory}/turned-about-own-axis"
+    ctx.default_key = key
+    b, h = float(rng.uniform(0.05, 0.1)), float(rng.uniform(0.15, 0.3))      # Iy != Iz
+    E, v, L = float(rng.uniform(1e3, 1e5)), float(rng.uniform(0.0, 0.4)), float(rng.uniform(1, 2))
+    Q = gm.random_rotation(rng, 3)
+    e1, y0 = Q[:, 0], Q[:, 1]
+    F = rng.uniform(-1, 1, 3)
+    Mo = rng.uniform(-1, 1, 3) * 0.2
+    th = float(rng.uniform(0.3, 2.5))
+    Kx = np.array([[0, -e1[2], e1[1]], [e1[2], 0, -e1[0]], [-e1[1], e1[0], 0]])
+    R = np.eye(3) + np.sin(th) * Kx + (1 - np.cos(th)) * Kx @ Kx
+    y1 = R @ y0
+    y1 = y1 - (y1 @ e1) * e1          # perpendicular to the member axis to round-off
+    y1 /= np.linalg.norm(y1)
+
+    def loads(s, m, rot):
+        un = s.Get_unknowns()
+        s.add_dirichlet(m.Nodes_Point(Point(0, 0, 0)), [0.0] * 6, un)
+        s.add_neumann(m.Nodes_Point(Point(*(L * e1))), list(rot @ F) + list(rot @ Mo), un)
+
+    def fresh(ya):
+        line = Line(Point(0, 0, 0), Point(*(L * e1)), L / 3)
+        beam = Models.Beam.Isotropic(3, line, bcm.rect_section(b, h), E, v, yAxis=tuple(ya))
+        mesh = Mesher().Mesh_Beams([beam], elemType=ElemType(et))
+        s = Simulations.Beam(mesh, Models.Beam.BeamStructure([beam]), useTimoshenko=(theory == "Timo"))
+        return s, s.mesh, beam
+
+    with ctx.monitored("no-exception", key + "/raised"):
+        with quiet():
+            s, m, beam = fresh(y0)
+            loads(s, m, np.eye(3))
+            u1 = s.Solve().reshape(m.Nn, 6).copy()
+            # the same beam, simulation and mesh objects: section axes re-assigned, boundary conditions entered again, turned
+            beam.yAxis = tuple(y1)
+            s.Bc_Init()
+            loads(s, m, R)
+            u2 = s.Solve().reshape(m.Nn, 6).copy()
+            s3, m3, _ = fresh(y1)
+            loads(s3, m3, R)
+            u3 = s3.Solve().reshape(m3.Nn, 6).copy()
+    sc = np.abs(u1[:, :3]).max()
+    ctx.check("beam-member-response", float(np.abs(u2[:, :3] - u1[:, :3] @ R.T).max() / sc), 1e-7, key + "/translations", et=et, theta=th)
+    ctx.check("beam-member-response", float(np.abs(u2[:, 3:] - u1[:, 3:] @ R.T).max() / np.abs(u1[:, 3:]).max()), 1e-7, key + "/rotations", et=et, theta=th)
+    ctx.check("beam-member-response", float(np.abs(u2 - u3).max() / np.abs(u3).max()), 1e-9, key + "/same-as-built-turned", et=et)
+    ctx.describe(f"beam-turned/{et}/{theory}", sc > 0, et=et, theory=theory, theta=th, direction=e1)
+
+
 def run_beam(case, ctx, rng):
     bdim, et, theory = case["dim"], case["et"], case["theory"]
     cls = "improper" if case["improper"] else "proper"
